@@ -4,7 +4,7 @@
    reaches the wire are about: for every buffer and every behaviour of the transport (any
    sequence of partial writes, would-blocks and errors).  Stdlib only, no axioms. *)
 From Coq Require Import String.
-From Amq Require Import Lib.Base Lib.RsVal Model.OutBuf Gen.SrcWrite.
+From Amq Require Import Lib.Base Lib.RsVal Model.OutBuf Proofs.OutBuf Gen.SrcWrite.
 Open Scope string_scope.
 Open Scope list_scope.
 Open Scope N_scope.
@@ -95,6 +95,28 @@ Proof.
   pose proof (@loop_source_is_model stream (S (length oracle)) (ob o) 0 oracle wire) as H.
   destruct (write_loop (S (length oracle)) (ob o) 0 oracle) as [[[ws r] b'] o''] eqn:Ew.
   cbn [fst snd] in *. apply H; [lia|exact Hs].
+Qed.
+
+(* C01 / C08 AS A THEOREM ABOUT THE TRANSLATED CODE: whatever the transport does, a pass of the
+   translated write loop that returns Ok leaves (what has reached the wire) ++ (what is still
+   buffered) unchanged - nothing is lost, duplicated or reordered; on an I/O error the buffer is
+   untouched and what was written is a prefix of it *)
+Theorem write_source_conserves stream o oracle wire :
+  snd (fst (fst (write_to_stream o oracle))) <> WStuck ->
+  exists ws buf' rest r,
+    gen_Inner_write_to_stream ext_model ext_st_model (S (length oracle)) (enc_self (ob o) oracle wire) stream
+    = (enc_self buf' rest (wire ++ ws), enc_wres r) /\
+    match r with
+    | WOk => (wire ++ ws) ++ buf' = wire ++ ob o
+    | WIoErr => buf' = ob o /\ exists k, ws = firstn k (ob o)
+    | WStuck => False
+    end.
+Proof.
+  intro Hs. pose proof (@write_source_is_model stream o oracle wire Hs) as H.
+  destruct (write_to_stream o oracle) as [[[ws r] o'] rest] eqn:Ew.
+  pose proof (write_conserves Ew) as [_ Hc].
+  exists ws, (ob o'), rest, r. split; [exact H|].
+  destruct r; [rewrite <- app_assoc, Hc; reflexivity|exact Hc|apply Hs; reflexivity].
 Qed.
 
 (* non-vacuity: 5 bytes; the transport takes 2, blocks; later takes the rest *)
